@@ -2,9 +2,10 @@ import Bardolph.Proofs.SimLoad
 import Bardolph.Proofs.SimCalls
 import Bardolph.Proofs.SimVals
 import Bardolph.Proofs.SimTop
+import Bardolph.Proofs.SimDefs
 /-!
 # C01 — the compiled code does what the source says (simulation; scripts of the fragment with
-top-level routine definitions, through the loader)
+routine definitions anywhere outside matrix blocks, through the loader)
 
 `Sem` is the source-level semantics (the specification), `Gen` the code generator, `Vm` the
 machine.  For every block of the fragment `Sim.FragBlock` (below) and every fuel: if the source
@@ -75,13 +76,16 @@ Why `V`: a routine that runs off its end leaves the `result` register as the las
 scratch on the machine — and on the REAL implementation — while `Sem` says `None`
 (`define f begin print 5 end  assign x [f]  print x` prints 5 twice on the real machine).  Calls as
 STATEMENTS need no such condition.
-Routine DEFINITIONS at the TOP LEVEL of the script are covered by `C01_gen_sim_top` (below): for
-a script made of statements of the fragment and, between them, `defRoutine n ps body` with `body`
-in the fragment (`Sim.TopBlock V`), the hypothesis `RoutinesAt` is PROVED of the image
-`Loader.load` makes (`Sim.routinesAt_top`, `Proofs/SimTop.lean`), and the machine runs from its
-initial state — through the loader's `JUMP` over the routines — to `halted`.
-Not covered: routine definitions NESTED inside `if` / `repeat` / matrix bodies (legal, rare: the
-loader then shortens the jumps that span them); calls in the arguments
+Routine DEFINITIONS are covered by `C01_gen_sim_defs` (below), wherever they stand — top level,
+inside `if` branches and `repeat` bodies, at any depth (`Sim.DefBlock V b`: the script with every
+definition replaced by a statement that does nothing, `Sim.stripB b`, is in the fragment, and the
+bodies of the definitions are blocks of the fragment): the hypothesis `RoutinesAt` is PROVED of
+the image `Loader.load` makes, and the machine runs from its initial state — through the loader's
+`JUMP` over the routines — to `halted`.  (`C01_gen_sim_top` is the earlier, direct proof for
+definitions at the top level only.)
+Not covered: routine definitions inside MATRIX-BLOCK bodies (`Sem.collect` does not look there:
+`Sem` does not know such a routine, the loader does) and inside routine bodies (rejected by the
+compiler); calls in the arguments
 of `printf` (values already queued for the `printf` would have to survive the call: the relation
 in a callee has no pending output).
 
@@ -114,26 +118,32 @@ The full statement (`gen_sim`, DESIGN §6 C01), of which the theorems below are 
           (Vm.finish (run (Loader.load code) k (Vm.init lights))).trace = .flush :: σ'.vm.trace
 
 for every well-formed script `b` (all statement forms, routines defined anywhere).
-`C01_gen_sim_top` is exactly this statement with `WellFormed b` replaced by
-`Sim.TopBlock V b ∧ Closed.wsBlock Kn false false false b = true`: statements of the fragment and
-top-level routine definitions with bodies of the fragment (those in `V` ending with `return`),
-accepted by the scope check that the compiler makes (`Closed.wsBlock`, the predicate of C06:
-calls of known names only, `return` only inside routines, `break` only inside loops, no
-definition inside a routine).  The scope check is used for one thing: `Closed.closed_stmt` (C06)
-says that every jump of a statement's code stays inside that code, hence is left alone by the
-loader's relocation (`Sim.reloc_closed`).  `C01_gen_sim_loaded` is the special case without
-definitions (there with no scope hypothesis).
-How `C01_gen_sim_top` is proved (`Proofs/SimTop.lean`): the compiled script is a sequence of
-items, main-statement code or `ROUTINE f; body; END f` (`Sim.itemsOf`); `Sim.load_items` computes
-`Loader.load` of such a sequence exactly — `classify`, the routine segment, the main segment
-with every jump unchanged, the routine table; `Sim.spans_forall2` + `Sim.find_rev_forall2` relate
-the table (searched from its reversed end: the LAST definition of a name wins, as a dict) to
-`Sem.collect` reversed, which is what `Sem.run` searches; `Sim.top_sim` runs the main code
-statement by statement, a definition doing nothing on either side.
+`C01_gen_sim_defs` is exactly this statement with `WellFormed b` replaced by
+`Sim.DefBlock V b ∧ Closed.wsBlock Kn false false false b = true`: statements of the fragment and
+routine definitions (top level or nested in `if` / `repeat` bodies) with bodies of the fragment
+(those in `V` ending with `return`), accepted by the scope check that the compiler makes
+(`Closed.wsBlock`, the predicate of C06: calls of known names only, `return` only inside routines,
+`break` only inside loops, no definition inside a routine).  The scope check is used through C06's
+`Closed.closed_stmt` / `closed_block`: every jump of a piece of generated code stays inside that
+piece.  `C01_gen_sim_loaded` is the special case without definitions (there with no scope
+hypothesis), `C01_gen_sim_top` the case of top-level definitions proved directly.
+How `C01_gen_sim_defs` is proved:
+* `Sim.strip_sem` (`Proofs/SimDefs.lean`): `Sem` computes the same for `b` and for `stripB b`
+  (every `defRoutine` replaced by `time at` with no pattern, which does nothing and compiles to no
+  code) — a definition acts through `Sem.collect`, not where it stands;
+* `Sim.mloc_stmt` / `mloc_block` (`Proofs/SimReloc.lean`): the loader's main part of the code of
+  `b` — sections cut out, jumps re-measured between the new positions — IS the code of `stripB b`.
+  `mloc` of a piece whose jumps stay inside it does not depend on the surrounding program
+  (`mctx_closed`), so it is computed piece by piece (`InCtx`); the shapes with jumps ACROSS
+  sub-blocks are mapped to themselves: `mloc_genIf_none`, `mloc_genIf_some`, `mloc_assembleLoop`
+  (whose `break` jumps are handled by `InCtx.patch`: patching commutes with the loader);
+* `Sim.load_defs`: hence `Loader.load code` is `JUMP`, the sections in the order of `Sem.collect`
+  (C06's `split_block` + `Sim.defsB_collect`), the code of `stripB b`, with the routine table of
+  `Sim.routinesAt_image` (`spans_forall2` + `find_rev_forall2`: the table is searched from its
+  reversed end, so the LAST definition of a name wins, as in `Sem.run`);
+* `C01_gen_sim_partial` for `stripB b` does the rest.
 What is missing for the full statement:
-* routine definitions nested inside `if` / `repeat` / matrix bodies: there the loader does change
-  jumps of the enclosing statement's code (those that span the extracted routine), so the code the
-  simulation lemmas see is not `genStmt st` but its relocation;
+* routine definitions inside matrix-block bodies (see above: a gap of `Sem.collect`);
 * calls in the arguments of `printf` (values already queued for the `printf` would have to survive
   the call), and value calls of routines that may run off their end (see `V` above);
 Restrictions of the fragment that are forced by the MODEL (source semantics and machine disagree
@@ -511,6 +521,48 @@ theorem C01_gen_sim_top (Kn : List String) (b : Block) (hb : TopBlock V b)
       · subst himg; simp; omega
   obtain ⟨k0, pc, hpc0, hsim0, hc, hsize⟩ := hstart
   obtain ⟨k, hk1, hk2⟩ := Sim.top_sim img _ hR b hb hnb f _ σ' _ pc hsim0 hpc0 hc h
+  refine ⟨k0 + k + 1, ?_⟩
+  rw [run_add, run_add, run_one _ _ hk2.running]
+  generalize run img k (run img k0 (Vm.init lights)) = t at hk1 hk2
+  have hstep : step img t = { t with status := .halted } := by
+    unfold step
+    have h0 : ¬ (t.pc < 0) := by omega
+    have h1 : t.pc.toNat = img.code.size := by omega
+    rw [if_neg (by simp [hk2.running]), if_neg h0, h1]
+    simp
+  rw [hstep]
+  refine ⟨rfl, ?_⟩
+  simp only [Vm.finish, hk2.unnamed, List.foldl_nil, State.emit, hk2.trace]
+
+/-- **whole scripts with routine definitions anywhere, through the loader.**  A script whose
+routine definitions stand at the top level or inside `if` / `repeat` bodies, at any depth
+(`DefBlock V`: without the definitions it is a script of the fragment, the bodies of the
+definitions are blocks of the fragment), accepted by the compiler's scope check
+(`Closed.wsBlock`), compiled by `Gen.genProgram` and loaded by `Loader.load` — which cuts the
+routine sections out of the code wherever they are, shortens the jumps of the main code that span
+them, and builds the routine table: if the source-level run (`Sem.run`) ends normally, the machine
+started in its initial state on the loaded image halts, and what `Machine.run` leaves behind
+(`Vm.finish`) is the source-level trace followed by the final flush of the output sink. -/
+theorem C01_gen_sim_defs (Kn : List String) (b : Block) (hb : DefBlock V b)
+    (hws : Closed.wsBlock Kn false false false b = true) (code : List Instr)
+    (hcode : Gen.genProgram b = some code) (f : Nat) (lights : List Light) (σ' : S)
+    (h : Sem.run f b lights = (.normal, σ')) :
+    ∃ k, (run (Loader.load code) k (Vm.init lights)).status = .halted ∧
+      (Vm.finish (run (Loader.load code) k (Vm.init lights))).trace = .flush :: σ'.vm.trace := by
+  obtain ⟨main, pc, hmain, hR, hc, hsize, hjump⟩ := image_defs b hb hws code hcode
+  generalize Loader.load code = img at hR hc hsize hjump
+  simp only [Sem.run] at h
+  rw [← strip_sem] at h
+  have hstart : ∃ (k0 : Nat), (run img k0 (Vm.init lights)).pc = (pc : Int) ∧
+      Sim ⟨none, (Sem.collect b).reverse⟩ {} { vm := Vm.init lights, routines := (Sem.collect b).reverse }
+        (run img k0 (Vm.init lights)) := by
+    rcases hjump with rfl | hi
+    · exact ⟨0, rfl, Sim.init lights _⟩
+    · obtain ⟨k0, hk0, hs0⟩ := Sim.exec_jump (img := img) (pc := 0) .always (pc : Int) pc (by simp)
+        (Sim.init lights (Sem.collect b).reverse) rfl hi (by simp)
+      exact ⟨k0, hk0, hs0⟩
+  obtain ⟨k0, hpc0, hsim0⟩ := hstart
+  obtain ⟨k, hk1, hk2⟩ := C01_gen_sim_partial img _ hR (stripB b) hb.1 main hmain f _ σ' _ pc hsim0 hpc0 hc h
   refine ⟨k0 + k + 1, ?_⟩
   rw [run_add, run_add, run_one _ _ hk2.running]
   generalize run img k (run img k0 (Vm.init lights)) = t at hk1 hk2
@@ -1419,6 +1471,95 @@ example : ∃ k, (run (Loader.load ([Instr.routine "down"] ++ downCode ++ [Instr
   C01_gen_sim_top (Wf.builtinNames ++ ["down"]) wholeScript wholeScript_top (by decide +kernel) _
     (genProgram_cons_def downBody_code mainBlock_code) 200 []
     (Sem.run 200 wholeScript []).2 (eq_of_fst (by decide +kernel))
+
+/-! ### eighth example: routine definitions NESTED in an `if` branch and in a loop body (with a
+`break` that jumps over one of them), through `C01_gen_sim_defs`
+
+```
+if {1 > 0} { define sq with x begin return {x * x} end  print 1 } else { print 2 }
+repeat 2 {
+  print [sq 3]
+  define fact with n begin if {n <= 1} { return 1 }  return {n * fact(n - 1)} end
+  if {fact(3) > 5} { break }
+  print 99
+}
+println [fact 4]
+```
+The loader cuts both sections out and shortens three jumps of the main code (12 → 5 over `sq`,
+49 → 27 and −52 → −30 around `fact`; the patched `break`, 9, does not span a section). -/
+
+def nestedScript : Block := Block.ofList [
+  .ite (.expr (.bin .gt (.lit (.int 1)) (.lit (.int 0))))
+    (Block.ofList [.defRoutine "sq" ["x"] sqBody, .print (.lit (.int 1))])
+    (some (Block.ofList [.print (.lit (.int 2))])),
+  .repeat_ (.count (.lit (.int 2))) (Block.ofList [
+    .print (.call "sq" ["x"] (.cons (.lit (.int 3)) .nil)),
+    .defRoutine "fact" ["n"] factBody,
+    .ite (.expr (.bin .gt (.call "fact" ["n"] (.cons (.lit (.int 3)) .nil)) (.lit (.int 5))))
+      (Block.ofList [.brk]) none,
+    .print (.lit (.int 99))]),
+  .println (some (.call "fact" ["n"] (.cons (.lit (.int 4)) .nil)))]
+
+def nestedCode : List Instr :=
+  [.pushq (.int 1), .pushq (.int 0), .op .gt, .pop (.reg .result), .jump .ifFalse 12, .routine "sq"] ++
+  sqCode ++
+  [.end_ "sq", .moveq (.int 1) (.reg .result), .out .register (.reg .result), .out .print (.lit .none),
+   .jump .always 4, .moveq (.int 2) (.reg .result), .out .register (.reg .result),
+   .out .print (.lit .none), .loop, .moveq (.int 2) (.loopVar .counter), .push (.loopVar .counter),
+   .pushq (.int 0), .op .gt, .pop (.reg .result), .jump .ifFalse 49, .ctx,
+   .moveq (.int 3) (.reg .result), .param "x" (.reg .result), .jsr "sq", .endCtx,
+   .out .register (.reg .result), .out .print (.lit .none), .routine "fact"] ++
+  factCode ++
+  [.end_ "fact", .ctx, .moveq (.int 3) (.reg .result), .param "n" (.reg .result), .jsr "fact", .endCtx,
+   .push (.reg .result), .pushq (.int 5), .op .gt, .pop (.reg .result), .jump .ifFalse 2,
+   .jump .always 9, .moveq (.int 99) (.reg .result), .out .register (.reg .result),
+   .out .print (.lit .none), .push (.loopVar .counter), .pushq (.int 1), .op .sub,
+   .pop (.loopVar .counter), .jump .always (-52), .endLoop, .ctx, .moveq (.int 4) (.reg .result),
+   .param "n" (.reg .result), .jsr "fact", .endCtx, .out .register (.reg .result),
+   .out .print (.lit .none), .out .printEnd (.lit .none)]
+
+theorem nestedScript_def : DefBlock (fun _ => True) nestedScript := by
+  constructor
+  · simp only [nestedScript, Block.ofList, stripB, stripS, FragBlock, FragStmt, RvC, ExprC, ArgsC,
+      LoopHdrOK]
+    refine ⟨?_, ?_, ?_, ?_⟩
+    all_goals first
+      | trivial
+      | decide
+      | (repeat' constructor) <;> first | trivial | decide | nofun
+  · intro d hd
+    simp only [nestedScript, Block.ofList, Sem.collect, List.append_nil, List.cons_append,
+      List.nil_append, List.mem_cons, List.not_mem_nil, or_false] at hd
+    rcases hd with rfl | rfl
+    · exact ⟨sqBody_frag, fun _ => by simp [sqBody, Block.ofList, EndsRet]⟩
+    · exact ⟨factBody_frag, fun _ => by simp [factBody, Block.ofList, EndsRet]⟩
+
+set_option maxRecDepth 8000 in
+theorem nestedScript_code : Gen.genProgram nestedScript = some nestedCode := by
+  simp [Gen.genProgram, nestedScript, sqBody, factBody, Block.ofList, genBlock, genStmt, genRv, genExpr,
+    genIf, genLoop, genCall, genParams, assembleLoop, patchBreaks_eq, patchRec, ins, counterTest, testOp,
+    loopPost, counter, result, pushLit, nestedCode, sqCode, factCode]
+
+theorem nestedScript_ws :
+    Closed.wsBlock (Wf.builtinNames ++ ["sq", "fact"]) false false false nestedScript = true := by
+  decide +kernel
+
+theorem nestedScript_sem : (Sem.run 200 nestedScript []).1 = .normal := by decide +kernel
+
+example : ∃ k, (run (Loader.load nestedCode) k (Vm.init [])).status = .halted ∧
+    (Vm.finish (run (Loader.load nestedCode) k (Vm.init []))).trace =
+      .flush :: (Sem.run 200 nestedScript []).2.vm.trace :=
+  C01_gen_sim_defs _ nestedScript nestedScript_def nestedScript_ws nestedCode nestedScript_code 200 []
+    (Sem.run 200 nestedScript []).2 (eq_of_fst nestedScript_sem)
+
+/-- by evaluation: the three shortened jumps, the table, and the traces -/
+example : (Loader.load nestedCode).code[34]? = some (.jump .ifFalse 5) ∧
+    (Loader.load nestedCode).code[48]? = some (.jump .ifFalse 27) ∧
+    (Loader.load nestedCode).code[74]? = some (.jump .always (-30)) ∧
+    (Loader.load nestedCode).routines = [("fact", 9), ("sq", 2)] := by decide +kernel
+
+example : (Sem.run 200 nestedScript []).2.vm.trace.reverse =
+    [.out (.int 1), .out (.int 9), .out (.int 24), .newline] := by decide +kernel
 
 /-! ### why the fragment excludes reading `result` and `setReg unitMode`: on these scripts the
 source semantics and the machine (both of the MODEL) disagree
